@@ -63,7 +63,7 @@ Definition served (sk : skel) (cfg : scfg) (hosted : list Z) (uid : Z) : Prop :=
 
 Definition req_ok (sk : skel) (cfg : scfg) (hosted : list Z) (q : e2e_req) : Prop :=
   0 <= q_tid q < 65536 /\ 0 <= q_pid q < 65536 /\ 0 <= q_uid q < 256 /\
-  (exists m w, q_body q = QMsg m /\ wreq_of_msg m = Some w /\ spec_wf m = true) /\
+  (exists w, body_ok (q_body q) w) /\
   served sk cfg hosted (q_uid q).
 
 Definition frame_of (q : e2e_req) : frame :=
@@ -83,6 +83,14 @@ Proof.
   - split; [destruct on; tauto|exact I].
   - split; [|exact I]. unfold zbytes. rewrite map_length.
     destruct (C01.C01_bitpack_shape coils) as (_ & Hl & _). unfold len in *. rewrite Hl. unfold bit_byte_count. lia.
+Qed.
+
+Lemma body_region b w : body_ok b w -> in_region w /\ other_ok w.
+Proof.
+  destruct b as [m|fc rest]; cbn [body_ok].
+  - intros [Hw _]. exact (in_region_msg m w Hw).
+  - intros (-> & _ & Hu & _). cbn [in_region other_ok]. split; [exact I|].
+    unfold unassigned in Hu. apply negb_true_iff in Hu. exact Hu.
 Qed.
 
 (* ================================================================== one delivered request *)
@@ -108,21 +116,21 @@ Theorem handle_one_spec sk cfg l su q :
     units_rel l' (su_set su (spec_key (cf_single cfg) (q_uid q)) s') /\
     u_keys slavectx l' = u_keys slavectx l.
 Proof.
-  intros Hsk Hrel (Htid & Hpid & Huid & (m & w & Hbody & Hw & Hwf) & Hbc & Hin).
+  intros Hsk Hrel (Htid & Hpid & Huid & (w & Hbody) & Hbc & Hin).
   set (k := spec_key (cf_single cfg) (q_uid q)) in *.
   (* the addressed context *)
   destruct (u_get slavectx l k) as [c|] eqn:Ec.
   2: { exfalso. apply (proj2 (u_get_in_keys slavectx l k)) in Hin. contradiction. }
   destruct (units_rel_get l su k c Hrel Ec) as (s & Hs & Hinv & Haeq & Hcells).
   (* C01 + adapter A: the request object and its attributes *)
-  destruct (decode_request m w Hw Hwf) as (o & r & Hdec & Hofc & Hreq & Hattrs).
+  destruct (decode_body _ w Hbody) as (o & r & Hdec & Hofc & Hreq & Hattrs).
   (* C04: execution refines the data model *)
-  destruct (in_region_msg m w Hw) as [Hreg Hoth].
+  destruct (body_region _ w Hbody) as [Hreg Hoth].
   destruct (C04.C04_refines c w r Hinv Hattrs Hoth Hreg) as (c' & rp & Hserve & Hinv' & Haeq' & Hvw & _).
   destruct (spec_exec_aeq (abs c) s w Haeq) as [Hst Hrs].
   rewrite Hrs in Hvw.
   (* adapter B + C01 encode: the response object *)
-  pose proof (response_wf m w s Hw Hwf Hcells) as Hrwf.
+  destruct (body_response_wf _ w s Hbody Hcells) as [Hrwf Hcells'].
   destruct (response_object rp _ Hvw Hrwf) as (ro & Hro & Hroabs & Hroc & Hcode).
   pose proof (C01.C01_encode_conforms ro _ Hroc Hroabs) as Hpdu.
   destruct (py_pdu_fc ro _ Hpdu) as [rfc Hrfc].
@@ -131,10 +139,10 @@ Proof.
   exists (spec_adu_tcp (q_tid q) modbus_pid (q_uid q) (spec_pdu (spec_response_msg (snd (spec_exec s w))))).
   exists (u_set slavectx l k c').
   split; [exact Hs|]. split.
-  { unfold spec_answer. rewrite Hbody. cbn [wreq_of]. rewrite Hw. destruct (spec_exec s w). reflexivity. }
+  { unfold spec_answer. rewrite (body_wreq _ w Hbody). destruct (spec_exec s w). reflexivity. }
   split.
   { unfold handle_one, delivery_of, spec_delivery, frame_of. cbn [d_pdu d_tid d_uid f_pdu f_tid f_uid f_pid].
-    rewrite Hbody. cbn [sreq_pdu]. rewrite Hdec. cbn [bind]. rewrite Hofc. cbn [bind]. rewrite Hreq.
+    rewrite Hdec. cbn [bind]. rewrite Hofc. cbn [bind]. rewrite Hreq.
     (* the skeleton of the front-end: C09 *)
     rewrite (respond_spec slavectx sk (tcp_fes_all sk Hsk)).
     assert (Hg : gated sk = true) by (cbv [tcp_fes] in Hsk; cbn [In] in Hsk; destruct Hsk as [<-|[<-|[<-|[]]]]; reflexivity).
@@ -163,7 +171,7 @@ Proof.
   split.
   { apply units_rel_set; [exact Hrel|]. split; [exact Hinv'|]. split.
     - eapply aeq_trans; [exact Haeq'|exact Hst].
-    - exact (exec_cells_ok m w s Hw Hwf Hcells). }
+    - exact Hcells'. }
   apply u_keys_set.
 Qed.
 
@@ -272,9 +280,16 @@ Proof.
   - cbn [spec_wf] in Hwf. split_andb Hwf. rewrite words_length. unfold is_u8, len in *. lia.
 Qed.
 
-Lemma dec_request_msg m w : wreq_of_msg m = Some w -> spec_wf m = true -> is_msg (e2e_dec (spec_pdu m)) = true.
+Lemma body_pdu_length b w : body_ok b w -> (1 <= length (sreq_pdu b) <= 300)%nat.
 Proof.
-  intros Hw Hwf. destruct (decode_request m w Hw Hwf) as (o & r & Hdec & Hfc & _).
+  destruct b as [m|fc rest]; cbn [body_ok sreq_pdu].
+  - intros [Hw Hwf]. exact (request_pdu_length m w Hw Hwf).
+  - intros (_ & _ & _ & Hl). cbn [length]. lia.
+Qed.
+
+Lemma dec_body_msg b w : body_ok b w -> is_msg (e2e_dec (sreq_pdu b)) = true.
+Proof.
+  intros Hb. destruct (decode_body b w Hb) as (o & r & Hdec & Hfc & _).
   unfold e2e_dec, py_decode_wrapper. rewrite Hdec, Hfc. reflexivity.
 Qed.
 
@@ -296,13 +311,13 @@ Lemma request_frames sk cfg l qs : Forall (req_ok sk cfg (u_keys slavectx l)) qs
   ref_deliveries KTcp (framer_cfg sk cfg l) (map frame_of qs) = map delivery_of qs.
 Proof.
   induction 1 as [|q t Hq Ht [IH1 IH2]]; [split; [constructor|reflexivity]|].
-  destruct Hq as (Htid & Hpid & Huid & (m & w & Hbody & Hw & Hwf) & Hserved).
-  pose proof (request_pdu_length m w Hw Hwf) as Hlen.
+  destruct Hq as (Htid & Hpid & Huid & (w & Hbody) & Hserved).
+  pose proof (body_pdu_length _ w Hbody) as Hlen.
   pose proof (served_accepted sk cfg l _ Hserved) as Hacc.
   split.
   - cbn [map]. constructor; [|exact IH1]. split.
-    + cbn [frame_wf]. unfold tcp_wf, frame_of. cbn [f_tid f_pid f_uid f_pdu]. rewrite Hbody. cbn [sreq_pdu]. lia.
-    + intros _. unfold frame_of. cbn [f_pdu]. rewrite Hbody. cbn [sreq_pdu]. exact (dec_request_msg m w Hw Hwf).
+    + cbn [frame_wf]. unfold tcp_wf, frame_of. cbn [f_tid f_pid f_uid f_pdu]. lia.
+    + intros _. unfold frame_of. cbn [f_pdu]. exact (dec_body_msg _ w Hbody).
   - unfold ref_deliveries in *. cbn [map filter]. change (f_uid (frame_of q)) with (q_uid q). rewrite Hacc.
     cbn [map]. now rewrite IH2.
 Qed.
